@@ -865,6 +865,15 @@ class Engine:
         if m:
             vs = self.si.enums['LevelInner']
             return Agg('tracing::Level', {0: Agg('LevelInner', {}, ['TRACE', 'DEBUG', 'INFO', 'WARN', 'ERROR'].index(m.group(1)), {}, vs)})
+        m = re.match(r'^\{(alloc\d+): &(?:mut )?(.*)\}$', t, re.S)
+        if m and re.search(r'Atomic|Mutex|RwLock|OnceCell|Lazy', m.group(2)):
+            # a reference to a `static` with interior state (the allocation id names the static throughout one MIR dump): one cell per
+            # path, created on first use with an unknown content -- later uses on the same path see what earlier uses left there
+            statics = dict(st.env.get('statics', {}))
+            if m.group(1) not in statics:
+                statics[m.group(1)] = st.alloc(Opaque(m.group(2).strip(), 'static ' + m.group(1)))
+                st.env['statics'] = statics
+            return Ref(statics[m.group(1)], ())
         body = self.db.const_body(t, st.frames[-1].fn if st.frames else None) if hasattr(self.db, 'const_body') else None
         if body is not None and len(st.frames) < self.call_depth + 4:
             key = (body.name, body.start_line)
